@@ -50,6 +50,11 @@ Definition progress_bar_thread_started_under_mask : bool :=
   | [a; b; c; d; e; f] => String.eqb b "  with DisableKeyboardInterruptSignal():" && String.eqb d "    self.thread.start()" &&
                           String.eqb e "    self.thread_started.wait()" && String.eqb f "return self"
   | _ => false end.
+(* ... and so is the process behind get_insights(): a SyncManager server started under the same mask (an interrupt in the
+   middle of its start-up would leave a server process behind that nobody owns) *)
+Definition insights_manager_started_under_mask : bool :=
+  follows_str "  with DisableKeyboardInterruptSignal():" "    self.insights_manager = NonPickledSyncManager(self.use_dill)" reset_insights_body &&
+  follows_str "    self.insights_manager = NonPickledSyncManager(self.use_dill)" "    self.insights_manager.start()" reset_insights_body.
 Definition map_call_terminates_on_any_exception : bool :=
   has "except BaseException:" imap_unordered_body_obs && has "  self.terminate()" imap_unordered_body_obs &&
   has "    except BaseException:" imap_unordered_body_obs && has "      self.terminate()" imap_unordered_body_obs &&
@@ -132,7 +137,7 @@ Definition lstep (l : ledger) (o : pop) : ledger :=
       (* a map call that raises -- a user exception, a timeout, a dead worker, KeyboardInterrupt at any point -- goes
          through terminate() before the exception leaves the call *)
       if map_call_terminates_on_any_exception && terminate_clears_everything && stop_handler_threads_joins_all_four &&
-         progress_bar_thread_started_under_mask &&
+         progress_bar_thread_started_under_mask && insights_manager_started_under_mask &&
          (* Routes.v: every statement of the call from which a worker can be alive is routed through a handler that
             shuts the pool down; workers are started / joined only from such statements *)
          every_protected_position_shuts_down && workers_only_touched_under_protection && handle_exception_shuts_down
